@@ -51,7 +51,7 @@ bool vp_qstring_eq(const QString *a, const QString *b);
 #define C11_STRLEN 4
 #endif
 
-enum { T_MESSAGE, T_SENT, T_RECEIVED, T_FORWARDED, T_BODY, T_OTHER, NTAG };
+enum { T_MESSAGE, T_SENT, T_RECEIVED, T_FORWARDED, T_BODY, T_OTHER, T_MESSAGES, NTAG };   // NTAG as an index: empty string
 enum { NS_CARBONS, NS_FORWARD, NS_CLIENT, NS_OTHER, NS_INHERIT, NNS };
 
 struct Node {
@@ -62,7 +62,7 @@ struct Node {
         tag = vp_u8(); vp_assume(tag < NTAG);
         ns = vp_u8(); vp_assume(ns < NNS);
         eff = (ns == NS_INHERIT && parent) ? parent->eff : ns;   // eff == NS_INHERIT: in no namespace at all
-        // tag: message|sent|received|forwarded|body|private; xmlns: urn:xmpp:carbons:2|urn:xmpp:forward:0|jabber:client|urn:xmpp:carbons:1|none
+        // tag: message|sent|received|forwarded|body|private|messages; xmlns: urn:xmpp:carbons:2|urn:xmpp:forward:0|jabber:client|urn:xmpp:carbons:1|none
         QString t, n; vp_c11_pick_tag(&t, tag); vp_c11_pick_ns(&n, ns);
         vp_dom_new(&el, &t, &n);
     }
@@ -71,13 +71,15 @@ struct Tree {
     Node outer, l1[C11_N1], l2[C11_N1][C11_N2], l3[C11_N1][C11_N2][C11_N3];
     unsigned n1, n2[C11_N1], n3[C11_N1][C11_N2];
     bool hasFrom; QString from;        // outer 'from' attribute (absent / 0..4 arbitrary UTF-16 units)
-    void build()
+    // withFrom: the outer stanza has a 'from' attribute (its own instance, so that the attribute value is never a symbolic choice
+    // between a model string and Qt's static null string - that mix defeats constant propagation in the string model)
+    void build(bool withFrom)
     {
         const QString fromName = QStringLiteral("from");
         outer.make(nullptr);
-        hasFrom = vp_bool(); from = vpSymString(C11_STRLEN);
+        hasFrom = withFrom; from = vpSymString(C11_STRLEN);
         if (hasFrom) vp_dom_set_attr(&outer.el, &fromName, &from);
-        bool innerHasFrom = vp_bool(); QString innerFrom = vpSymString(C11_STRLEN);   // 'from' of every wrapper / inner element
+        const bool innerHasFrom = true; QString innerFrom = vpSymString(C11_STRLEN);   // 'from' of every wrapper / inner element
         for (int i = 0; i < C11_N1; i++) {
             l1[i].make(&outer); vp_dom_append(&outer.el, &l1[i].el);
             if (innerHasFrom) vp_dom_set_attr(&l1[i].el, &fromName, &innerFrom);
@@ -140,19 +142,19 @@ static void oracle(const Tree &t, const QString &bare, bool ret, bool v1, void *
     vp_assume(nd == 1);
 }
 
-extern "C" void h_v2()
+static void run_v2(bool withFrom)
 {
     QXmppClient *client = reinterpret_cast<QXmppClient *>(clientStorage);
     QString bare = vpSymString(C11_STRLEN);
     vp_c11_setup(client, &bare);
     VpRaw<QXmppCarbonManagerV2> mgr; vp_qobject_construct(mgr.p(), nullptr); mgr->m_client = client;
-    Tree t; t.build();
+    Tree t; t.build(withFrom);
     std::optional<QXmppE2eeMetadata> e2ee;
     bool ret = mgr->QXmppCarbonManagerV2::handleStanza(t.outer.el, e2ee);
     oracle(t, bare, ret, false, mgr.p(), client, -1, -1);
 }
 
-extern "C" void h_v1()
+static void run_v1(bool withFrom)
 {
     QXmppClient *client = reinterpret_cast<QXmppClient *>(clientStorage);
     QString bare = vpSymString(C11_STRLEN);
@@ -162,10 +164,15 @@ extern "C" void h_v1()
     int sentIdx, recvIdx;
     { QXmppMessage probe; mgr->messageSent(probe); sentIdx = int(vp_c11_sigidx(0)); vp_c11_reset(); mgr->messageReceived(probe); recvIdx = int(vp_c11_sigidx(0)); vp_c11_reset(); }
     vp_assert(sentIdx != recvIdx, "C11 V1 messageSent and messageReceived are distinct signals");
-    Tree t; t.build();
+    Tree t; t.build(withFrom);
     bool ret = mgr->QXmppCarbonManager::handleStanza(t.outer.el);
     oracle(t, bare, ret, true, mgr.p(), client, sentIdx, recvIdx);
 }
+
+extern "C" void h_v2() { run_v2(true); }
+extern "C" void h_v2_nofrom() { run_v2(false); }
+extern "C" void h_v1() { run_v1(true); }
+extern "C" void h_v1_nofrom() { run_v1(false); }
 
 // Helper lemma: QXmpp::Private::firstChildElement(el, tag, xmlns) returns the FIRST child element whose tag matches (or any tag
 // when the tag view is empty) and whose namespace matches (or any when empty); a null element when there is none / el is null.
@@ -176,7 +183,7 @@ extern "C" void h_first_child()
     for (int i = 0; i < 3; i++) { ch[i].make(&parent); vp_dom_append(&parent.el, &ch[i].el); }
     unsigned n = vp_u8(); vp_assume(n <= 3); vp_dom_truncate(&parent.el, n);
     unsigned qt = vp_u8(), qn = vp_u8(); vp_assume(qt <= NTAG && qn <= NS_INHERIT);   // NTAG / NS_INHERIT: empty view = wildcard
-    QString ts, nss; if (qt < NTAG) vp_c11_pick_tag(&ts, qt); vp_c11_pick_ns(&nss, qn);
+    QString ts, nss; vp_c11_pick_tag(&ts, qt); vp_c11_pick_ns(&nss, qn);
     bool nullParent = vp_bool();
     QDomElement r = QXmpp::Private::firstChildElement(nullParent ? QDomElement() : parent.el, ts, nss);
     int exp = -1;
